@@ -210,8 +210,13 @@ func (r *responseBuilder) buildFromField(fld *types.Var, tpe types.Type, typable
 	case *types.Slice:
 		return r.buildFromField(fld, ftpe.Elem(), typable.Items(), seen)
 	case *types.Map:
+		target := typable.Schema()
+		if target == nil {
+			// only a body (or a response body) has a schema to describe a map with
+			return fmt.Errorf("field %s: a map is not supported outside of a body", fld.Name())
+		}
 		schema := new(spec.Schema)
-		typable.Schema().Typed("object", "").AdditionalProperties = &spec.SchemaOrBool{
+		target.Typed("object", "").AdditionalProperties = &spec.SchemaOrBool{
 			Schema: schema,
 		}
 		sb := schemaBuilder{
